@@ -152,6 +152,9 @@ func specsC03(tier string) []seqmc.Spec {
 		}{{"i1", 1}, {"i2", 1}, {"i2", 2}} {
 			cfg.ops = append(cfg.ops, op{kind: "upd", target: "t1", ts: pv.v, prefix: ps(pv.pre), ups: []updSpec{{ps("s"), pv.v}}, sharedPath: true})
 		}
+		// an update BELOW an existing leaf (x, or the atomic group k): refused,
+		// nothing stored, nothing evicted, nothing announced
+		cfg.ops = append(cfg.ops, upd("t1", "x/y", 3, 1), upd("t1", "k/m/z", 3, 1))
 		// decimals that differ only beyond float32 resolution, different precision
 		cfg.ops = append(cfg.ops, upd("t1", "dec", 1, 1001), upd("t1", "dec", 2, 1002), upd("t1", "dec", 3, 1001))
 		// the same number in another arm of the value oneof, same timestamp as an int update
